@@ -538,22 +538,35 @@ pub fn generate(seed: u64, thorough: bool) -> Vec<String> {
             }
         }
     }
-    // 2. four edits over the same four documents: quick — only the task spawned by an edit may
-    //    finish inside that edit's window; thorough — every unfinished task may
+    // 2. four edits over the same four documents, only the task spawned by an edit may finish inside
+    //    that edit's window; thorough additionally: four edits over {clean, notll, syntax} where
+    //    every unfinished task may finish inside any later window
     let sp4 = spawns_of(&four);
     for ds in all_doc_seqs(4, 4) {
-        for s in schedules(&ds, &sp4, !thorough) {
+        for s in schedules(&ds, &sp4, true) {
             let mode = if idx % 2 == 0 { "lazy" } else { "eager" };
             out.push(format!("ls29 {dw} {s} {mode}"));
             idx += 1;
         }
     }
-    // 2b. thorough: five edits over {clean, notll, syntax}, own-task windows only
     if thorough {
-        let names5 = ["clean", "notll", "syntax"];
+        let names3 = ["clean", "notll", "syntax"];
+        let dw3 = docs_word(&names3);
+        let sp3 = spawns_of(&names3);
+        for ds in all_doc_seqs(3, 4) {
+            for s in schedules(&ds, &sp3, false) {
+                let mode = if idx % 2 == 0 { "lazy" } else { "eager" };
+                out.push(format!("ls29 {dw3} {s} {mode}"));
+                idx += 1;
+            }
+        }
+    }
+    // 2b. thorough: five edits over {clean, notll}, own-task windows only
+    if thorough {
+        let names5 = ["clean", "notll"];
         let dw5 = docs_word(&names5);
         let sp5 = spawns_of(&names5);
-        for ds in all_doc_seqs(3, 5) {
+        for ds in all_doc_seqs(2, 5) {
             for s in schedules(&ds, &sp5, true) {
                 let mode = if idx % 2 == 0 { "lazy" } else { "eager" };
                 out.push(format!("ls29 {dw5} {s} {mode}"));
